@@ -186,6 +186,10 @@ wait:
 // ---- scenario B: WorkerLimit n, 3n jobs due at once, every execution waits at a barrier of size n
 func poolLimited(r *rand.Rand, n int, st *poolStats) { poolLimitedOpt(r, n, false, st) }
 
+// poolPanicFirst is set for the runs in which n panicking jobs are due shortly before the waves: "keep jobs independent" — a
+// panic must cost the pool nothing, all n workers are still there for the barrier.
+var poolPanicFirst bool
+
 // restartFirst: the scheduler is started, stopped and waited for (drained) before the run that is measured, on the same live
 // parent context: the pool of a stopped run must be gone, so the bound n holds for the scheduler object as well.
 func poolLimitedOpt(r *rand.Rand, n int, restartFirst bool, st *poolStats) {
@@ -227,6 +231,13 @@ func poolLimitedOpt(r *rand.Rand, n int, restartFirst bool, st *poolStats) {
 		delay := time.Duration(10+r.Intn(3)) * time.Millisecond
 		must(s.ScheduleJob(quartz.NewJobDetail(j, quartz.NewJobKey(j.name)), quartz.NewRunOnceTrigger(delay)))
 	}
+	if poolPanicFirst {
+		name += "-after-panics"
+		for i := 0; i < n; i++ {
+			j := &poolJob{name: fmt.Sprintf("boom%d", i), run: func(ctx context.Context) error { panic("job panics") }}
+			must(s.ScheduleJob(quartz.NewJobDetail(j, quartz.NewJobKey(j.name)), quartz.NewRunOnceTrigger(2*time.Millisecond)))
+		}
+	}
 	ctx, cancel := context.WithCancel(context.Background())
 	s.Start(ctx)
 	if restartFirst {
@@ -255,10 +266,12 @@ wait:
 		st.violation("max in-flight exceeded bound: WorkerLimit %d, %d executions in progress at once, %d jobs due at once", n, max, jobs)
 	}
 	if stuck.Load() > 0 || (got == jobs && passed.Load() != int64(jobs)) {
-		st.violation("barrier not passed within 5 s: WorkerLimit %d, %d of %d executions never saw %d executions running in parallel (max in flight %d)",
+		st.violation("barrier not passed within 5 s (%s): WorkerLimit %d, %d of %d executions never saw %d executions running in parallel (max in flight %d)", name,
 			n, stuck.Load(), jobs, n, max)
 	}
-	if got < jobs {
+	if got < jobs && poolPanicFirst {
+		st.violation("%s: after %d jobs that panicked, only %d of %d jobs ran within 30 s with WorkerLimit %d: a panicking job cost the pool its workers (jobs are not independent)", name, n, got, jobs, n)
+	} else if got < jobs {
 		st.failures = append(st.failures, fmt.Sprintf("%s: only %d of %d jobs ran within 30 s", name, got, jobs))
 	}
 	if !poolShutdown(s, cancel) {
@@ -584,6 +597,78 @@ func poolStaleWorker(trials int, st *poolStats) {
 	st.count("stale_worker", fmt.Sprintf("ok=%d/%d", ok, trials))
 }
 
+// ---- scenario F: retry attempts are job executions too. Blocking mode (bound 1) or WorkerLimit n (bound n); a third of the jobs
+// fail their first attempt at once and do their work in the retry (MaxRetries 1, RetryInterval 5 ms); all are due together, so the
+// retry attempts overlap the other jobs. The maximum number of Execute bodies in progress must stay within the bound, and every
+// job finishes (failers after 2 attempts).
+func poolRetriesCounted(r *rand.Rand, n int, st *poolStats) {
+	name, bound := "blocking-with-retries", 1
+	opts := []quartz.SchedulerOpt{quartz.WithOutdatedThreshold(time.Hour)}
+	if n == 0 {
+		opts = append(opts, quartz.WithBlockingExecution())
+	} else {
+		name, bound = fmt.Sprintf("pool-%d-with-retries", n), n
+		opts = append(opts, quartz.WithWorkerLimit(n))
+	}
+	s, err := quartz.NewStdScheduler(opts...)
+	must(err)
+	jobs := 9 * bound
+	if jobs > 36 {
+		jobs = 36
+	}
+	var c poolCounter
+	done := make(chan struct{}, jobs)
+	for i := 0; i < jobs; i++ {
+		d := time.Duration(20+r.Intn(11)) * time.Millisecond
+		failFirst := i%3 == 0
+		var attempts atomic.Int64
+		j := &poolJob{name: fmt.Sprintf("r%d", i), run: func(ctx context.Context) error {
+			c.enter()
+			defer c.leave()
+			if failFirst && attempts.Add(1) == 1 {
+				return fmt.Errorf("first attempt fails")
+			}
+			time.Sleep(d)
+			done <- struct{}{}
+			return nil
+		}}
+		jo := quartz.NewDefaultJobDetailOptions()
+		jo.MaxRetries, jo.RetryInterval = 1, 5*time.Millisecond
+		must(s.ScheduleJob(quartz.NewJobDetailWithOptions(j, quartz.NewJobKey(j.name), jo), quartz.NewRunOnceTrigger(10*time.Millisecond)))
+	}
+	ctx, cancel := context.WithCancel(context.Background())
+	s.Start(ctx)
+	got := 0
+	deadline := time.After(30 * time.Second)
+wait:
+	for got < jobs {
+		select {
+		case <-done:
+			got++
+		case <-deadline:
+			break wait
+		}
+	}
+	max := c.max.Load()
+	if max > int64(bound) {
+		st.violation("max in-flight exceeded bound: %s, %d executions (first attempts and retries) in progress at once (bound %d), %d jobs due at once, a third of them failing their first attempt",
+			name, max, bound, jobs)
+	}
+	if got < jobs {
+		st.violation("%s: only %d of %d jobs completed within 30 s (a failed first attempt with MaxRetries 1 must be retried once)", name, got, jobs)
+	}
+	if !poolShutdown(s, cancel) {
+		st.failures = append(st.failures, name+": Wait did not return within 10 s after Stop")
+	}
+	st.mu.Lock()
+	st.evals += got
+	st.shapes[name] = true
+	st.samples = append(st.samples, map[string]any{"scenario": name, "jobs_due_at_once": jobs, "completed": got, "max_in_flight": max, "bound": bound})
+	st.mu.Unlock()
+	st.count("scenario", name)
+	st.count("max_in_flight", fmt.Sprintf("%s:%d", name, max))
+}
+
 func poolRun(args []string) int {
 	fs := flag.NewFlagSet("pool", flag.ExitOnError)
 	seed := fs.Int64("seed", 1, "")
@@ -603,6 +688,11 @@ func poolRun(args []string) int {
 			poolLimited(r, n, st)
 		}
 		poolUnbounded(r, st)
+		poolPanicFirst = true
+		poolLimited(r, []int{1, 2, 4}[r.Intn(3)], st)
+		poolPanicFirst = false
+		poolRetriesCounted(r, 0, st)
+		poolRetriesCounted(r, []int{1, 2, 4}[r.Intn(3)], st)
 		poolLimitedOpt(r, []int{2, 4}[r.Intn(2)], true, st)
 		if k == 0 { // fewer processors than workers: executions that wait (not compute) must still reach n in progress
 			oldProcs := runtime.GOMAXPROCS(2)
@@ -630,7 +720,7 @@ func poolRun(args []string) int {
 		"distribution": st.dist, "violations": viol, "samples": st.samples, "harness_failures": st.failures,
 		"leftover_quartz_goroutines": leftover, "wall_ms": time.Since(t0).Milliseconds()})
 	fmt.Printf("pool: %d executions observed in %d scenario runs (%d distinct), %d property violations, %d harness failures, %d ms\n",
-		st.evals, *rounds*7+3, len(st.shapes), len(viol), len(st.failures), time.Since(t0).Milliseconds())
+		st.evals, *rounds*10+3, len(st.shapes), len(viol), len(st.failures), time.Since(t0).Milliseconds())
 	if len(st.failures) > 0 {
 		fmt.Println("pool: harness failures:", st.failures)
 		return 4
